@@ -1,8 +1,38 @@
 (* C01 — Address map: every address of a declared range decodes to exactly one rule whose destination is the owner's identity; addresses outside decode to nothing.
    Part 1: the certified checker that is evaluated (extracted) on the netlist the REAL floogen emitted
    is sound for the semantic statement C01_on over the hardware model Hw.v. *)
-From FV Require Import Base RouteMap Netlist Hw Check CheckProofs.
+From FV Require Import Base AddrRange RouteMap Netlist Hw Check CheckProofs Desc Build Compile Paths Routing Emit ModelProofs Examples.
 
 Theorem C01_checker_sound : forall n exp, chk_C01 n exp = [] -> C01_on n exp.
 Proof. exact chk_C01_sound. Qed.
 Print Assumptions C01_checker_sound.
+
+(* Part 2: universal theorems over the generator model: every description, every size, every
+   shortest-path oracle, all addresses (unbounded Z). *)
+Definition C01_statement : Prop :=
+  (* whatever is emitted decodes every address of every range of every subordinate interface to
+     exactly one rule whose destination is that interface's emitted identity, and nothing else *)
+  (forall sp d g c ri n, build d = Ok g -> compile d g = Ok c -> gen_routing_info sp c = Ok ri ->
+     emit c ri = Ok n -> C01_model_on c ri n) /\
+  (* element (i,j) of a 2-D array owns [base + (i*cols+j)*size, base + (i*cols+j+1)*size); element i of
+     a 1-D array owns slot i -- for each declared range *)
+  (forall d g ni x e m cols i j, compile_ni d g ni = Ok x -> find_ep d (n_desc ni) = Some e -> ep_is_sbr e = true ->
+     ep_array e = Some [m; cols] -> n_arr ni = Some [i; j] ->
+     Forall2 (fun s r => exists r0 b, range_of_spec s = Ok r0 /\ r_base r0 = Some b /\
+                r_start r = b + (i * cols + j) * r_size r0 /\ r_end r = b + (i * cols + j + 1) * r_size r0 /\
+                r_size r = r_size r0) (ep_ranges e) (cn_ranges x)) /\
+  (forall d g ni x e m i, compile_ni d g ni = Ok x -> find_ep d (n_desc ni) = Some e -> ep_is_sbr e = true ->
+     ep_array e = Some [m] -> n_arr ni = Some [i] ->
+     Forall2 (fun s r => exists r0 b, range_of_spec s = Ok r0 /\ r_base r0 = Some b /\
+                r_start r = b + i * r_size r0 /\ r_end r = b + (i + 1) * r_size r0 /\
+                r_size r = r_size r0) (ep_ranges e) (cn_ranges x)) /\
+  (* a description whose expanded ranges overlap is rejected *)
+  (forall sp c, Forall range_wf (sam_ranges c) -> ~ ranges_disjoint (sam_ranges c) ->
+     exists e, gen_routing_info sp c = Err e).
+
+Theorem C01_holds : C01_statement.
+Proof. exact (conj C01_model (conj array_slot_2d (conj array_slot_1d overlap_rejected))). Qed.
+Print Assumptions C01_holds.
+
+Example C01_nonvacuous : forallb accepted [ex_star ID; ex_mesh XY; ex_tree SRC] = true.
+Proof. vm_compute. reflexivity. Qed.
